@@ -118,7 +118,9 @@ pub fn apply(ty: &Ty, e: &Edit, n: u32) -> Option<Ty> {
                 Ty::Prim(Prim::U32) => (p(Prim::String), Conv::ToStringFn),
                 _ => return None,
             };
-            if f.from != 0 {
+            // exception: widening an added u8 whose default is Default::default() commutes (0 -> 0)
+            let commuting_added = f.default == DefaultKind::Trait && matches!(f.ty, Ty::Prim(Prim::U8));
+            if f.from != 0 && !commuting_added {
                 // a default declared for versions before the field existed would not commute
                 // with the conversion; keep histories whose step-wise meaning is unambiguous
                 return None;
@@ -298,6 +300,7 @@ fn reduced_alphabet(ty: &Ty) -> Vec<Edit> {
                 Edit::Add { pos: 0, ty: p(Prim::U32), default: DefaultKind::Trait },
                 Edit::Add { pos: n, ty: p(Prim::String), default: DefaultKind::Trait },
                 Edit::Add { pos: n / 2, ty: p(Prim::U8), default: DefaultKind::Lit("9".into(), Val::U(9)) },
+                Edit::Add { pos: n, ty: p(Prim::U8), default: DefaultKind::Trait },
             ];
             // remove the first and the last live field; convert the first convertible
             let live: Vec<usize> = (0..n).filter(|i| s.fields[*i].removed == RemovedKind::No && s.fields[*i].versions_as.is_empty()).collect();
@@ -311,6 +314,10 @@ fn reduced_alphabet(ty: &Ty) -> Vec<Edit> {
                 }
             }
             if let Some(&c) = live.iter().find(|i| matches!(s.fields[**i].ty, Ty::Prim(Prim::U8) | Ty::Prim(Prim::U32))) {
+                out.push(Edit::Convert { pos: c });
+            }
+            // a field that was itself added in an earlier step (Add then Convert)
+            if let Some(&c) = live.iter().rev().find(|i| s.fields[**i].from > 0 && matches!(s.fields[**i].ty, Ty::Prim(Prim::U8))) {
                 out.push(Edit::Convert { pos: c });
             }
             out
